@@ -24,7 +24,7 @@ Obs == [c |-> {<<k[1], k[2]>> \o Ent(cache'[k]) : k \in {kk \in AllKeys : cache'
 Det(msg) == /\ Cardinality(RelAllowed(msg, desc, waiting)) = 1
             /\ msg.tx \notin PrefTexts
 
-GInit == Init /\ hist = <<[act |-> "descr", desc |-> desc]>>
+GInit == Init /\ hist = <<[act |-> "descr", desc |-> desc, ids |-> NameMaps(desc)]>>
 GNext ==
   \/ \E msg \in {mm \in Msgs : mm.ident \in GIdents /\ mm.action \in GActions} :
         /\ Det(msg)
@@ -39,7 +39,7 @@ GNext ==
   \/ \E rk \in {r \in ReqKeys : r[2] \in GIdents} : Expect(rk) /\ hist' = Append(hist, [act |-> "expect", rk |-> rk, exp |-> Obs])
   \/ Tick /\ hist' = Append(hist, [act |-> "tick", exp |-> Obs])
   \/ Idle /\ hist' = Append(hist, [act |-> "idle", exp |-> Obs])
-  \/ \E d \in Descs : Describe(d) /\ hist' = Append(hist, [act |-> "describe", desc |-> d, exp |-> Obs])
+  \/ \E d \in Descs : Describe(d) /\ hist' = Append(hist, [act |-> "describe", desc |-> d, ids |-> NameMaps(d), exp |-> Obs])
 GSpec == GInit /\ [][GNext]_<<vars, hist>>
 
 GBound == Bound
@@ -54,6 +54,13 @@ GenInit == {GenD1}
 GenInit3 == {GenD1, GenD2, GenD3}
 GenDescs == {GenD1, GenD2}
 GenDescs3 == {GenD1, GenD2, GenD3}
+(* custom accessibles named underscore + predefined name, with (m1) and without (m2) the plain one in the module *)
+GenN1 == {<<"m1", "target">>, <<"m1", "_target">>, <<"m2", "_value">>}
+GenN2 == {<<"m1", "target">>, <<"m1", "_target">>, <<"m1", "value">>, <<"m2", "_value">>, <<"m2", "_target">>}
+GenInitN == {GenN1}
+GenDescsN == {GenN1, GenN2}
+GIdentsN == {<<"m1", "target">>, <<"m1", "_target">>, <<"m1", "">>, <<"m2", "_value">>, <<"m2", "">>}
+GLevelsN == {NodeL, <<"m1", "">>, <<"m1", "target">>, <<"m1", "_target">>}
 (* identifier classes: known, shorthand with / without default accessible, custom name,   *)
 (* command, unknown parameter, unknown module                                            *)
 GIdentsQ == {<<"m1", "value">>, <<"m1", "">>, <<"m2", "x">>, <<"m1", "cmd">>, <<"zz", "value">>}
